@@ -43,9 +43,13 @@ var ggUnary = []string{"-", "+", "!", "^", "*", "&", "<-"}
 var ggBinary = []string{"+", "-", "*", "/", "%", "&", "|", "^", "<<", ">>", "&^", "&&", "||", "==", "!=", "<", "<=", ">", ">="}
 var ggAssignOps = []string{"=", ":=", "+=", "-=", "*=", "/=", "%=", "&=", "|=", "^=", "<<=", ">>=", "&^="}
 
-// qualified identifier through one of four kinds of import
+// qualified identifier through one of five kinds of import
 func (g *gogen) qual(sym string) string {
-	switch g.pick(4) {
+	switch g.pick(5) {
+	case 4:
+		// a vendored copy, imported by its location (what go/types reports for vendored packages)
+		g.imports["vlib"] = `vlib "app/vendor/x/lib"`
+		return "vlib." + sym
 	case 1:
 		g.imports["rand"] = `"math/rand"`
 		return "rand." + sym
@@ -706,7 +710,7 @@ func c01Generated(r *ev.Recorder) {
 		}
 	})
 	r.Note("generated", map[string]any{"programs": st.Executions, "per_deviation_level": st.PerLevel, "max_choice_points": st.MaxPoints, "results": kinds, "complete": st.Complete,
-		"rule": fmt.Sprintf("Go source generator with one default and up to 30 alternative productions per category (expressions 19, types 16, statements 30, declarations 10+16, literals %d, all unary/binary/assignment operators, every presence combination of slice/for/switch headers, imports: std, renamed std name, aliased, cgo with preamble); depth <= 3; every program with <= %d non-default choices", len(ggLits), dev)})
+		"rule": fmt.Sprintf("Go source generator with one default and up to 30 alternative productions per category (expressions 19, types 16, statements 30, declarations 10+16, literals %d, all unary/binary/assignment operators, every presence combination of slice/for/switch headers, imports: std, renamed std name, aliased, vendored location path, cgo with preamble); depth <= 3; every program with <= %d non-default choices", len(ggLits), dev)})
 	if !st.Complete {
 		r.NotExhaustive("generated programs: deadline reached")
 	}
